@@ -4,10 +4,12 @@ import common, fns, sweeps
 from common import canon
 
 PROP = 'C02'
-LEAN_MODULES = ['XyzProofs.Props.C02']
+LEAN_MODULES = ['XyzProofs.Props.C02', 'XyzProofs.Props.C02ParseCases']
 THEOREMS = ['Core.c02_calls_exactly_requested', 'Core.c02_slot', 'Core.c02_coords_union', 'Core.c02_overlap_rejected',
-            'Value.c02_placeholder_shape', 'Value.c02_placeholder_none_iff', 'Core.sortedSet_spec']
-ANCHORS = []
+            'Value.c02_placeholder_shape', 'Value.c02_placeholder_none_iff', 'Core.sortedSet_spec',
+            'ParseCases.c02_pc_dicts', 'ParseCases.c02_pc_tuples', 'ParseCases.c02_pc_bare', 'ParseCases.c02_pc_needs_fn_args',
+            'ParseCases.c02_pc_empty', 'ParseCases.dictZip_nodup']
+ANCHORS = ['casesWrapBare']
 RULE = ("1-4 case arguments, 1-8 distinct cases (dict spelling through combo_runner(cases=...), tuple spelling through "
         "case_runner), optional sub-grid on 0-2 further arguments, result kinds scalar num/bool/str, tuples (incl. str/bool "
         "components), nested lists, Dataset; shuffle / executors; flat or nested, split; plus a stream of requests with an "
@@ -27,6 +29,7 @@ def n_box(sw):
 
 
 def nontrivial(c):
+    if c.get('kind') == 'parsecases': return c['sp']['k'] in ('rows', 'dicts') and len(c['sp'].get('rows') or c['sp'].get('ds') or []) >= 2
     sw = c['sweep']
     return c.get('overlap') or len(sw['rows']) >= 2 or n_box(sw) > len(sw['rows'])
 
@@ -49,7 +52,71 @@ def _case(rng, heavy_ok=False, **kw):
     return c
 
 
+# ----------------------------------------------------------------------------- spellings of a case list (parse_cases)
+
+def _pc_val(rng):
+    return rng.choice([rng.randint(0, 30), rng.randint(0, 30), rng.choice(['p', 'q', 'beta', 'al', 'xyz', 'tt'])])
+
+
+def _pc_case(rng):
+    fa = rng.sample(['a', 'b', 'c'], rng.randint(1, 3))
+    n = rng.randint(1, 4)
+    meaning = [[[k, _pc_val(rng)] for k in fa] for _ in range(n)]
+    style = rng.choice(['dicts', 'onedict', 'tuples', 'bare', 'bare_first', 'tuple_first', 'ragged', 'no_fn_args', 'empty'])
+    expect = None
+    fn_args = fa
+    if style == 'dicts':
+        sp = {'k': 'dicts', 'ds': meaning}; expect = meaning
+        if rng.random() < 0.3: fn_args = None
+    elif style == 'onedict':
+        sp = {'k': 'onedict', 'd': meaning[0]}; expect = meaning[:1]
+        if rng.random() < 0.3: fn_args = None
+    elif style == 'tuples':
+        sp = {'k': 'rows', 'rows': [[v for _, v in cs] for cs in meaning]}; expect = meaning
+    elif style == 'bare':
+        fn_args = fa[:1]
+        meaning = [cs[:1] for cs in meaning]
+        sp = {'k': 'rows', 'rows': [cs[0][1] for cs in meaning]}; expect = meaning
+    elif style == 'bare_first':      # first row bare, later rows anything
+        sp = {'k': 'rows', 'rows': [_pc_val(rng)] + [rng.choice([_pc_val(rng), [_pc_val(rng) for _ in range(rng.randint(0, 3))]]) for _ in range(n - 1)]}
+    elif style == 'tuple_first':     # first row a tuple, later rows anything
+        sp = {'k': 'rows', 'rows': [[_pc_val(rng) for _ in fa]] + [rng.choice([_pc_val(rng), [_pc_val(rng) for _ in range(rng.randint(0, 3))]]) for _ in range(n - 1)]}
+    elif style == 'ragged':
+        sp = {'k': 'rows', 'rows': [[_pc_val(rng) for _ in range(rng.randint(0, 4))] for _ in range(n)]}
+    elif style == 'no_fn_args':
+        fn_args = None
+        sp = {'k': 'rows', 'rows': [[v for _, v in cs] for cs in meaning]}
+    else:
+        sp = rng.choice([{'k': 'none'}, {'k': 'rows', 'rows': []}, {'k': 'dicts', 'ds': []}, {'k': 'onedict', 'd': []}]); expect = []
+    return {'kind': 'parsecases', 'fn_args': fn_args, 'sp': sp, 'style': style, 'expect': expect, 'seq_type': rng.choice(['list', 'tuple'])}
+
+
+def _pc_run(c):
+    from xyzpy.gen.prepare import parse_cases
+    sp = c['sp']; seq = list if c['seq_type'] == 'list' else tuple
+    if sp['k'] == 'none': py = None
+    elif sp['k'] == 'onedict': py = dict(map(tuple, sp['d']))
+    elif sp['k'] == 'dicts': py = seq(dict(map(tuple, d)) for d in sp['ds'])
+    else: py = seq(tuple(r) if isinstance(r, list) else r for r in sp['rows'])
+    try:
+        res = parse_cases(py, None if c['fn_args'] is None else tuple(c['fn_args']))
+    except TypeError:
+        return {'err': 'TypeError'}
+    except Exception as ex:
+        return {'err': type(ex).__name__, 'msg': str(ex)[:200]}
+    def cv(v): return [cv(x) for x in v] if isinstance(v, (tuple, list)) else v
+    return {'cases': [[[k, cv(v)] for k, v in d.items()] for d in res]}
+
+
 def cases(ctx):
+    rng = ctx.rng
+    out = []
+    for _ in range(1200 if ctx.tier == 'quick' else 15000):
+        c = _pc_case(rng); ctx.count('parse_cases_style', c['style']); out.append(c)
+    return out + _sweep_cases(ctx)
+
+
+def _sweep_cases(ctx):
     rng = ctx.rng
     out = []
     # boundary: a single case; cases sharing coordinates; full box requested; every kind with one missing slot
@@ -108,6 +175,7 @@ def _rec(c):
 
 
 def run_real(c, ctx):
+    if c.get('kind') == 'parsecases': return _pc_run(c)
     import xyzpy as xyz
     sw = c['sweep']
     f = _rec(c)
@@ -132,6 +200,8 @@ def run_real(c, ctx):
 
 
 def model_request(c, obs):
+    if c.get('kind') == 'parsecases':
+        return {'op': 'parsecases', 'fn_args': c['fn_args'], 'sp': c['sp']}
     sw = c['sweep']
     rq = {'op': 'core', 'kind': sweeps.model_kind(c['kind']), 'flat': c['flat'],
           'split': sweeps.n_outputs(c['kind']) if c['split'] else 0}
@@ -148,6 +218,9 @@ def model_request(c, obs):
 
 
 def compare(c, obs, rep):
+    if c.get('kind') == 'parsecases':
+        a = obs.get('err') or obs.get('cases'); b = rep.get('err') or rep.get('cases')
+        return None if a == b else f'parse_cases: real {json.dumps(a)} model {json.dumps(b)}'
     if 'err' in obs or 'err' in rep:
         if ('err' in obs) != ('err' in rep):
             return f'error mismatch: real {obs.get("err")} {obs.get("msg")} model {rep.get("err")}'
@@ -181,6 +254,11 @@ def _placeholder(kind, j=None):
 
 def oracle(c, obs):
     if 'harness_exc' in obs: return None
+    if c.get('kind') == 'parsecases':
+        if c['expect'] is None: return None
+        if 'err' in obs: return f'accepted spelling of the cases rejected: {obs["err"]} {obs.get("msg", "")}'
+        if obs['cases'] != c['expect']: return f'cases normalised to {json.dumps(obs["cases"])}, meant {json.dumps(c["expect"])}'
+        return None
     sw, kind = c['sweep'], c['kind']
     if c.get('overlap'):
         if 'err' not in obs: return 'an argument in both cases and combos was not rejected'
